@@ -111,6 +111,9 @@ def run(ctx, scale=1):
     stmts += pool.expr_statements(ctx, (300 if ctx.quick else 5000) * scale, depth=(2, 3))
     stmts += [{"sql": s, "dialect": "common", "origin": "targeted"} for s in [
         "select a1 + ~ b2 from t3", "select a1 = not b2 from t3", "select sum(x1) filter (where c2 > 3) over (partition by p4 order by o5) from t6",
+        # a WITH clause inside parentheses, at the top and below
+        "(with w1 as (select 5 as k2) select k2 from w1)", "((with w1 as (select 5 as k2) select k2 from w1))", "(with w1 as (select 5 as k2) select k2 from w1) order by k2",
+        "select a1 from t2 where b3 in (with w4 as (select 6 as k5) select k5 from w4)", "with w1 as (select 5 as k2) (select k2 from w1)",
         # suffix operators behind one another, tighter behind looser and the reverse
         "select a1::int.b2 from t3", "select f1(a2)::varchar(7).b3 + 4 from t5", "select (a1::int).b2, a3.b4::int, f5(a6).b7::text, (a8).b9.c10 from t3",
         "select a1:b2.c3::int, f4(x5):y6 from t7", "select sum(x1) over (order by o2) filter (where y3 > 4) from t5",
